@@ -203,3 +203,108 @@ func VerifH_C10_repeatedSort() {
 	}
 	vCover("sorted")
 }
+
+// C10.K4: Schema.Comparator orders rows by the sorting columns only, wherever
+// the sorting column sits in the row: a repeated column that precedes it (and
+// holds several values in a row) must not shift the comparison; ties on the
+// first sorting column are broken by the second; direction and null placement
+// are applied per column.
+func VerifH_C10_comparatorColumns() {
+	vUnwind(64)
+	schema := NewSchema("s", Group{
+		"a": Repeated(Leaf(Int64Type)),
+		"k": Leaf(Int64Type),
+		"m": Optional(Leaf(Int64Type)),
+	})
+	desc := vChoose("kDescending", 0, 1) == 1
+	nullsFirst := vChoose("mNullsFirst", 0, 1) == 1
+	var sk, sm SortingColumn = Ascending("k"), Ascending("m")
+	if desc {
+		sk = Descending("k")
+	}
+	if nullsFirst {
+		sm = NullsFirst(sm)
+	}
+	byM := vChoose("secondSortingColumn", 0, 1) == 1
+	cmp := schema.Comparator(sk)
+	if byM {
+		cmp = schema.Comparator(sk, sm)
+	}
+	type rowVals struct {
+		k     int64
+		mNull bool
+		m     int64
+	}
+	mk := func(tag string) (Row, rowVals) {
+		var row Row
+		la := vChoose(tag+"listLen", 0, 2)
+		if la == 0 {
+			row = append(row, Value{}.Level(0, 0, 0))
+		}
+		for i := 0; i < la; i++ {
+			rep := 1
+			if i == 0 {
+				rep = 0
+			}
+			row = append(row, makeValueInt64(vI64(tag+"a")).Level(rep, 1, 0))
+		}
+		rv := rowVals{k: int64(vI8(tag + "k"))}
+		row = append(row, makeValueInt64(rv.k).Level(0, 0, 1))
+		rv.mNull = vChoose(tag+"mNull", 0, 1) == 1
+		if rv.mNull {
+			row = append(row, Value{}.Level(0, 0, 2))
+		} else {
+			rv.m = int64(vI8(tag + "m"))
+			row = append(row, makeValueInt64(rv.m).Level(0, 1, 2))
+		}
+		return row, rv
+	}
+	r1, v1 := mk("r1.")
+	r2, v2 := mk("r2.")
+	got := cmp(r1, r2)
+	// reference
+	ref := func() int {
+		if v1.k != v2.k {
+			lt := v1.k < v2.k
+			if desc {
+				lt = !lt
+			}
+			if lt {
+				return -1
+			}
+			return 1
+		}
+		switch {
+		case !byM:
+			return 0
+		case v1.mNull && v2.mNull:
+			return 0
+		case v1.mNull:
+			if nullsFirst {
+				return -1
+			}
+			return 1
+		case v2.mNull:
+			if nullsFirst {
+				return 1
+			}
+			return -1
+		case v1.m < v2.m:
+			return -1
+		case v1.m > v2.m:
+			return 1
+		}
+		return 0
+	}()
+	sign := func(x int) int {
+		switch {
+		case x < 0:
+			return -1
+		case x > 0:
+			return 1
+		}
+		return 0
+	}
+	vAssert(sign(got) == ref, "the comparator orders rows by the sorting columns, with direction and null placement")
+	vCover("compared")
+}
